@@ -1,5 +1,6 @@
 import Revm.Proofs.EvmTerm
 import Revm.Proofs.EvmLinkStrict6
+import Revm.Proofs.EvmLinkResult
 import Revm.Proofs.EvmLinkNoFuel
 import Revm.Proofs.EvmLinkGasInv4
 /-! LINK, termination: **`Evm.runLoop` and `Evm.transact` terminate within `2 · gas + 1` iterations.** The measure
@@ -140,7 +141,7 @@ theorem iterate_mu {cfg : Cfg} {stack : List JFrame} {w : World} {nx}
     | host hk =>
       simp only at h
       obtain ⟨⟨resp, w1⟩, ha, h⟩ := bind_ok h
-      exact afterStep_mu (hk resp) h
+      exact afterStep_mu (hk resp (answer_ok ha)) h
 
 /-- the frame loop of the whole EVM is decreasing (C01 `EvmTerm.Decreasing`), with no invariant -/
 theorem loop_decreasing (cfg : Cfg) : EvmTerm.Decreasing journalOps cfg (fun _ => True) mu where
